@@ -288,6 +288,9 @@ func (d *Decoder) readTypedList(tag byte) (interface{}, error) {
 		SetValue(aryValue.Index(j), EnsureRawValue(item))
 	}
 
+	// destinations that referred to this list while it was still growing get its final state
+	// (a list in a struct field is bound again by SetSlice; a list at top level has no other owner)
+	holder.notify()
 	return holder, nil
 }
 
@@ -347,5 +350,7 @@ func (d *Decoder) readUntypedList(tag byte) (interface{}, error) {
 		}
 	}
 
+	// destinations that referred to this list while it was still growing get its final state
+	holder.notify()
 	return holder, nil
 }
